@@ -23,6 +23,12 @@ CHECKS = {
  "C18": dict(level="model_checking", sec="3/C18", technique="exhaustive enumeration of all functions on <=3 blocks x sizes x address patterns; complete traversal of the location graph against a definitional one",
    text="Every function on <=3 blocks (all edge sets, all entries, block sizes 0/1/2 and index gaps, three address patterns, two program placements); every location: forward/backward converse and equal to the definition, locations() exact, forward closure from the entry exact, owned/borrowed round trip on program and clone, migrate, from_address for every address. Larger functions are not covered.",
    note="Trusted: definitional location graph built by the harness from blocks()/edges()."),
+ "C12": dict(level="model_checking", sec="3/C12", technique="exhaustive enumeration of small IL functions x initial states; explicit-state product of each concrete execution with a last-writer monitor, plus static path checks",
+   text="Every function on <=2 blocks with <=3 instructions (3 blocks: <=1, thorough 2) from a 10-operation alphabet incl. two-scalar reads, self-referential updates, loads, stores, declared and undeclared intrinsics; in every reachable product state the last writer of each scalar must be in reaching_definitions/use_def; reported definitions must reach along a kill-free path; def_use == inverse(use_def). Larger programs are not covered.",
+   note="Trusted: refil reference semantics, harness expression walker for read/write sets, harness location graph."),
+ "C14": dict(level="model_checking", sec="3/C14", technique="exhaustive enumeration of small IL functions x initial states; lock-step explicit-state product of the input and the DCE output (observational-equivalence monitor)",
+   text="Same program space as C12 plus indirect branches; structural identity (only ops->nop), then lock-step product from every initial valuation: same path, same stores, same scalar state at every intrinsic/indirect branch and at terminal blocks. Larger programs are not covered.",
+   note="Trusted: refil reference semantics; intrinsics are observation points whose declared writes yield equal values on both sides."),
 }
 NA = []
 def main():
